@@ -54,6 +54,32 @@ def run(tier, seed, replay=None):
     cv = ck.validate(DIR, "CutTrace", [c for c, _ in ctl], "negative controls")
     for (c, exp), v in zip(ctl, cv):
         ck.control(f"corrupted trace rejected ({exp})", (not v["ok"]) and v["why"] == exp, str(v))
+    # ---- step level: every master LP and every pricing call of solve_cg (wrapped module-level names) as a step of column generation
+    sc = [c for c in cases if c.get("kind") == "stock" and not c.get("floats") and len(c["sizes"]) <= 3
+          and __import__("math").prod(c["W"] // z + 1 for z in c["sizes"]) <= 1500][: 250 if tier == "quick" else 3000]
+    st = [r for r in run_tasks("cutstock", "run_cg_steps", sc, timeout=30) if isinstance(r, dict) and "steps" in r]
+    if len(st) < len(sc) // 2:
+        raise tlc.MachineryError("column-generation step traces could not be recorded (%d of %d)" % (len(st), len(sc)))
+    sv = ck.validate(DIR, "CgSteps", st, "master LP / pricing calls of solve_cg", timeout=3000)
+    for v in sv:
+        for d in v.get("div", []):
+            ck.divergences["cg_step:" + d] = ck.divergences.get("cg_step:" + d, 0) + 1
+    ck.extra["column_generation_step_level"] = {"calls": len(st), "steps_replayed": sum(v.get("steps", 0) for v in sv),
+                                                "calls_with_divergence": sum(1 for v in sv if v.get("div"))}
+    sctl = []
+    for t, v in zip(st, sv):
+        ms = [i for i, e in enumerate(t["steps"]) if e["k"] == "master" and e["finite"] and sum(e["x6"]) > 0]
+        ps = [i for i, e in enumerate(t["steps"]) if e["k"] == "price"]
+        if v.get("div") or not ms or not ps:
+            continue
+        c = copy.deepcopy(t); c["steps"][ms[0]]["duals6"] = [d + 300000 for d in c["steps"][ms[0]]["duals6"]]; sctl.append((c, "Master.du"))
+        c = copy.deepcopy(t); c["steps"][ms[0]]["lp6"] += 1000000; sctl.append((c, "Master."))
+        c = copy.deepcopy(t); c["steps"][ps[0]]["pattern"] = [0] * len(t["sizes"]); c["steps"][ps[0]]["value6"] = 0; sctl.append((c, "Pricing.better_pattern_exists"))
+        break
+    if not sctl:
+        raise tlc.MachineryError("no column-generation trace suitable for step-level controls")
+    for (c, exp), v in zip(sctl, ck.validate(DIR, "CgSteps", [c for c, _ in sctl], "step-level negative controls")):
+        ck.control(f"corrupted column-generation record flagged ({exp}*)", any(d.startswith(exp) for d in v.get("div", [])), str(v)[:300])
     ck.rule = ("cutting-stock instances with 1-3 piece types, roll width 3-12, demands 0-4 (duplicate sizes, zero demands), and covering "
                "instances with a custom pricing function over an explicit pool of <= 8 columns; both solvers per instance; non-trivial = total "
                "demand >= 2; distinct by hash")
